@@ -7,7 +7,7 @@
 (* describes; the argument relation claimed by the harness is re-checked   *)
 (* here (TOOL) before the result relation is judged (VERDICT).             *)
 (***************************************************************************)
-EXTENDS PropsWrap, Indent, Refill, Columns
+EXTENDS PropsWrap, Indent, Refill, Columns, Options
 
 (* ------------------------------------------------------------------------- *)
 (* fragment-level events: wrap_first_fit / wrap_optimal_fit                  *)
@@ -286,6 +286,13 @@ Judge_std(e) ==
            [] e.op = "trim_end" -> e.res = <<TrimEndWs(e.s)>>
            [] e.op = "trim_start_prefix" -> e.res = <<TrimStartMatches(e.s, PrefixChars)>>
            [] OTHER -> FALSE) >>
+
+\* the Options builder: a sequence of builder calls (not a listed property: drift only)
+Judge_optseq(e) ==
+  LET want == ApplyAll(DefaultOpts(e.w0, e.full), e.ops, 1, e.full) IN <<
+    Chk("C08", "DRIFT", "Options builder: fields after the sequence of builder calls differ from the specification's", e.res = want),
+    Chk("C08", "DRIFT", "Options::from(&options) does not copy every field", e.by_ref = e.res),
+    Chk("C08", "DRIFT", "Options::from(width) differs from Options::new(width)", e.from_usize = DefaultOpts(e.w0, e.full)) >>
 
 \* generic call event of the adversarial totality generator: only the status matters
 Judge_call(e) == On("C04", << Chk("C04", "VERDICT", "a public function panicked", e.allowed \/ Ok(e)) >>)
